@@ -3,6 +3,7 @@ package main
 // SSA -> verification conditions for one function under contract.
 
 import (
+	"os"
 	"fmt"
 	"go/ast"
 	"go/constant"
@@ -485,6 +486,10 @@ func (ft *fnTrans) wfFacts(term string, t types.Type, top string, depth int) []s
 		out = append(out, "(>= (i-ref "+term+") 0)")
 		out = append(out, "(>= (i-tag "+term+") 0)")
 		out = append(out, "(=> (= (i-tag "+term+") 0) (= (i-ref "+term+") 0))")
+		if msElem(t) != nil {
+			// (set model: a non-nil Set value carries a set object)
+			out = append(out, "(=> (= (i-ref "+term+") 0) (= (i-tag "+term+") 0))")
+		}
 		if top != "" {
 			out = append(out, "(< (i-ref "+term+") "+top+")")
 		}
@@ -554,6 +559,13 @@ func (ft *fnTrans) envAt(h Heap, hdr *loopInfo, phiBind map[*ssa.Phi]string) *En
 					t = ft.val(li.rangeIx)
 				}
 				return TV{"(+ " + t + " 1)", tInt}, true
+			}
+			if name == "_s" {
+				// the collection a range-over-slice loop iterates (an unnamed temporary in `range f()`)
+				if coll := ft.rangedSlice(hdr); coll != nil {
+					return TV{ft.val(coll), coll.Type()}, true
+				}
+				sfail("_s: not a range-over-slice loop")
 			}
 			for phi, t := range phiBind {
 				if phi.Comment == name {
@@ -1269,6 +1281,9 @@ func (ft *fnTrans) computeLoopWrites(li *loopInfo) {
 		for _, ins := range ft.fn.Blocks[bi].Instrs {
 			ws, all := ft.writesOf(ins)
 			if all {
+				if os.Getenv("GVC_DEBUG") != "" && !li.all {
+					fmt.Fprintf(os.Stderr, "debug: loop %d of %s writes everything because of %v\n", li.ordinal, ft.fn.Name(), ins)
+				}
 				li.all = true
 			}
 			for _, w := range ws {
@@ -1278,6 +1293,29 @@ func (ft *fnTrans) computeLoopWrites(li *loopInfo) {
 	}
 }
 
+
+// rangedSlice: for a range-over-slice loop (hidden index phi, condition `index+1 < len(coll)`), the collection.
+func (ft *fnTrans) rangedSlice(li *loopInfo) ssa.Value {
+	if li.rangeIx == nil {
+		return nil
+	}
+	for _, ins := range li.header.Instrs {
+		b, ok := ins.(*ssa.BinOp)
+		if !ok || b.Op != token.LSS {
+			continue
+		}
+		call, ok := b.Y.(*ssa.Call)
+		if !ok {
+			continue
+		}
+		if bi, ok := call.Call.Value.(*ssa.Builtin); ok && bi.Name() == "len" && len(call.Call.Args) == 1 {
+			if _, isSlice := call.Call.Args[0].Type().Underlying().(*types.Slice); isSlice {
+				return call.Call.Args[0]
+			}
+		}
+	}
+	return nil
+}
 
 // isCanonicalRangeIndex checks the go/ssa shape of a range loop's hidden index: phi [entry: -1, back: phi+1].
 func (ft *fnTrans) isCanonicalRangeIndex(li *loopInfo) bool {
